@@ -301,6 +301,8 @@ func init() {
 	}
 	reg("C06", DispatchProfile{Backends: both, Interleave: true, StoreFaults: true},
 		"deliver routes (1-3 targets, concurrency 1-4, generated retry settings), per-target behaviour scripts (status 100-599 biased to boundaries, refused, reset, response lost, hang to the deadline, DNS failure, recovery after failures), worker cycles sequential and interleaved with stalls; oracle: independent classification table per delivery, settlement = recorded outcome, nack delay within [d(1-j), d(1+j)], sends per cycle <= max+1, one attempt record per delivery, and after faults stop every message ends delivered or dead; store faults: single calls of the dispatcher (batch and single settlements, attempt records) are refused by the store at drawn points - every recorded delivery outcome still reaches the store through a settlement call unless the call of last resort was itself refused (C06.settle.dropped)", 1200, 50000)
+	reg("C05", DispatchProfile{Backends: both, Interleave: true, Batchy: true},
+		"dispatcher part: every retry nack the dispatcher issues carries the delay its own message's attempt calls for (batched settlements included: micro-batches with messages on different attempt numbers and with jitter), so no message is offered before its own not-before time or hidden beyond it; after the faults stop every message is delivered or dead", 800, 30000)
 	reg("C16", DispatchProfile{Backends: both, Egress: true},
 		"generated egress policies (https_only, redirects, rebind protection, allow/deny with exact/*/*.domain/CIDR) x target and redirect URLs (schemes, userinfo, ports, IP literals incl. v6 and v4-mapped, trailing dots, case) x resolver answers (private/public mixes, answers changing between lookups, failures); oracle: independent policy predicate over every request that reached simnet including each redirect hop, under the answers the resolver gave for that check; denied delivery sent nothing and is dead as policy_denied", 1200, 50000)
 	reg("C17", DispatchProfile{Backends: both, Sign: true},
